@@ -460,6 +460,26 @@ static Val eval(const Node &n, std::vector<Val> &regs)
                     r.v.push_back(eval(k, regs));
                 return r;
             }
+            if (n.op == "collect") {
+                // (collect a b ...) -> {"v":[Basic values], "kept":[positions]}; operands that
+                // are error registers / non-Basic values are dropped instead of failing the statement
+                Val v = Val::vec(), kept = Val::vec();
+                for (size_t i = 0; i < n.kids.size(); i++) {
+                    try {
+                        Val x = eval(n.kids[i], regs);
+                        if (x.k == Val::B) {
+                            v.v.push_back(x);
+                            kept.v.push_back(Val::integer((long)i));
+                        }
+                    } catch (DepError &) {
+                    } catch (Decline &) {
+                    }
+                }
+                Val m = Val::map();
+                m.put("v", v);
+                m.put("kept", kept);
+                return m;
+            }
             auto it = optable().find(n.op);
             if (it == optable().end())
                 throw Decline("unknown op " + n.op);
